@@ -22,9 +22,13 @@ type Env struct {
 	visKey   string
 	loopPre  *State // loop invariants: the state in which the loop was entered (before(e))
 	iterPre  *State // loop invariants: the state at the start of the current iteration (prev(e))
+	callSite bool   // a callee's postcondition evaluated at a call site: clauses over the callee's inner states (after()) are skipped
 }
 
 type cxError struct{ msg string }
+
+// cxSkip: the clause cannot be interpreted at this place and is left out (sound: an assumption less)
+type cxSkip struct{ why string }
 
 func cxFail(format string, a ...any) { panic(cxError{fmt.Sprintf(format, a...)}) }
 
@@ -902,6 +906,31 @@ func (e *Env) call(n *CNode) Val {
 		n2 := *e
 		n2.state = e.loopPre
 		return n2.expr(n.Args[0])
+	case "after":
+		// after(F, e): e in the state in which the first call of F (short name of a callee of the function under
+		// verification, outside loops) returned.  Only meaningful where that call has happened on every path: the
+		// call's block must dominate the point at which the expression is evaluated (checked for posts by the caller:
+		// the root function's returns).
+		if e.callSite {
+			panic(cxSkip{"after() refers to a state inside the callee"})
+		}
+		root := e.fc
+		for root.parent != nil {
+			root = root.parent
+		}
+		st, ok := root.afterCall[n.Args[0].Name]
+		if !ok {
+			cxFail("after(%s, ...): no call of %s before this point", n.Args[0].Name, n.Args[0].Name)
+		}
+		if b := root.afterCallBlock[n.Args[0].Name]; root.curBlock != nil && b != root.curBlock && !b.Dominates(root.curBlock) {
+			cxFail("after(%s, ...): the call does not dominate this point", n.Args[0].Name)
+		}
+		if len(root.loopsOf[root.afterCallBlock[n.Args[0].Name]]) > 0 {
+			cxFail("after(%s, ...): the call is inside a loop", n.Args[0].Name)
+		}
+		n2 := *e
+		n2.state = st
+		return n2.expr(n.Args[1])
 	case "prev":
 		// prev(e): e at the start of the current iteration.  Where the invariant is established or assumed this is the
 		// current state (prev(e) == e); at the end of the loop body it is the state the iteration started in, so a
